@@ -2,7 +2,7 @@ INIT Init
 NEXT Next
 CONSTANTS
   Species = {"A", "B", "C", "D"}
-  Catalog <- Cat32
+  Catalog <- Cat16
   MaxR = 2
   KVals <- KZ
   Orders <- OrdOne
